@@ -72,7 +72,8 @@ def _pair(handlers_acc, handlers_req, timeouts=2.0, tracer=None):
                 pass
             if a.is_established:
                 a.release()
-        leaks = e2e.wait_quiet(before, 3 * t_o + 2.0)
+        e2e.wait_accepted(rec_req, a, rec_acc)
+        leaks = e2e.wait_quiet(before, 3 * t_o + 2.0, (rec_req, rec_acc))
         hs = list(rec_acc.hist.items())
         return {
             "thread_errors": list(thread_errors), "leaks": leaks,
